@@ -2446,6 +2446,9 @@ impl<'a, 'b, W: Write> SerializeMap for MapSer<'a, 'b, W> {
                         self.ser.out.write_str("? ")?;
                         self.ser.out.write_str(&text)?;
                         self.ser.newline()?;
+                        // As for complex keys: the value follows its own `:` and is laid out
+                        // without regard to the previous sibling.
+                        self.ser.last_value_was_block = false;
                         self.last_key_complex = true;
                     } else {
                         self.ser.out.write_str(&text)?;
